@@ -227,6 +227,15 @@ def focused(tier):
         ("pre-emptive priorities", [node(c=1, preempt="resume"), node(c=1)],
          {"A": klass([ARR, None], [[2.0, 1.0], [1.0]], prio=1, route=matrix([[0.0, 0.5], [0.0, 0.0]])),
           "B": klass([{"values": [1.0, 2.0], "budget": 1}, None], [[0.5, 1.0], [1.0]], prio=0, route=matrix([[0.0, 0.5], [0.0, 0.0]]))}, 10.0),
+        ("pre-emptive priorities reroute", [node(c=1, preempt="reroute"), node(c=1)],
+         {"A": klass([ARR, None], [[2.0, 1.0], [1.0]], prio=1, route=matrix([[0.0, 0.5], [0.0, 0.0]])),
+          "B": klass([{"values": [1.0, 2.0], "budget": 1}, None], [[0.5, 1.0], [1.0]], prio=0, route=matrix([[0.0, 0.5], [0.0, 0.0]]))}, 10.0),
+        ("schedule reroute", [node(c={"sched": {"numbers": [1, 0], "ends": [1.5, 2.5], "preempt": "reroute"}}), node(c=1)],
+         {"A": klass([ARR, None], [[2.0, 1.0], [1.0]], route=matrix([[0.0, 0.5], [0.0, 0.0]])),
+          "B": klass([None, {"values": [1.0, 2.0], "budget": 1}], [[2.0, 1.0], [1.0]], route=matrix([[0.0, 0.0], [0.0, 0.0]]))}, 8.0),
+        ("schedule resume + blocking", [node(c={"sched": {"numbers": [1, 0], "ends": [2.0, 3.0], "preempt": "restart"}}), node(c=1, cap=0)],
+         {"A": klass([ARR, None], [[1.0, 0.5], [2.0, 1.0]], route=matrix([[0.0, 1.0], [0.0, 0.0]])),
+          "B": klass([None, {"values": [1.0, 2.0], "budget": 1}], [[1.0, 0.5], [2.0, 1.0]], route=matrix([[0.0, 0.0], [0.0, 0.0]]))}, 9.0),
         ("batches with rejection", [node(c=1, cap=1), node(c=1)],
          {"A": klass([ARR, None], [[2.0, 1.0], [1.0]], batch=[[2, 1, 0], None], route=matrix([[0.0, 0.5], [0.0, 0.0]])),
           "B": klass([None, {"values": [1.0, 2.0], "budget": 1}], [[2.0, 1.0], [1.0]], batch=[None, None], route=matrix([[0.0, 0.0], [0.0, 0.0]]))}, 10.0),
@@ -234,6 +243,9 @@ def focused(tier):
     for nm, nodes, classes, T in nets:
         for tr in TRACKERS:
             tn = tr if isinstance(tr, str) else "%s%s" % (tr[0], list(tr[1].values())[0])
+            if tier == "quick" and nm in ("pre-emptive priorities reroute", "schedule reroute", "schedule resume + blocking") and tn not in (
+                    "SystemPopulation", "NodePopulation", "NaiveBlocking", "NodeClassMatrix", "MatrixBlocking"):
+                continue
             if tier == "quick" and nm not in ("blocking", "class change after service + blocking") and tn in (
                     "NodePopulationSubset[1]", "GroupedNodePopulation[[1, 0]]", "NodeClassMatrix['B', 'A']"):
                 continue
